@@ -19,12 +19,13 @@ ID = "C19"
 CASES = {"quick": 640, "thorough": 8000}
 FLOOR = {"quick": 520, "thorough": 6500}
 FLOOR_COUNTERS = {
-    "quick": {"membership_lps": 9000, "height_lps": 14000, "queries_judged": 9000, "relation_fits": 1000, "hulls_with_unselected": 400},
-    "thorough": {"membership_lps": 140000, "height_lps": 220000, "queries_judged": 140000, "relation_fits": 14000, "hulls_with_unselected": 5000},
+    "quick": {"membership_lps": 9000, "height_lps": 14000, "queries_judged": 9000, "relation_fits": 1000, "hulls_with_unselected": 400, "estimators_with_a_past": 500, "non_float64_features": 150, "non_default_tolerance": 120},
+    "thorough": {"membership_lps": 140000, "height_lps": 220000, "queries_judged": 140000, "relation_fits": 14000, "hulls_with_unselected": 5000, "estimators_with_a_past": 7000, "non_float64_features": 2000, "non_default_tolerance": 1600},
 }
 RULE = (
     "case = samples with 1-3 hull dimensions and 0-3 extra high-dimensional columns placed in any column order (low_dim_idx in "
-    "any order), convex / concave / noisy targets; per training sample one LP decides lower-hull membership and one the hull "
+    "any order; float64 / int64 / float32 features), convex / concave / noisy targets in units 2^-10..2^14, tolerance default | 1e-9 | 1e-6 | "
+    "1e-3 (with large target units), 40% hull objects with a past (fit, score_samples, score_feature_matrix on other data); per training sample one LP decides lower-hull membership and one the hull "
     "height; queries = random convex combinations of sample positions at offsets +0.7 / 0 / -0.7 from the hull; relations: "
     "positive affine map of y, added samples strictly above the hull. non-trivial = at least one unselected sample and >= 2 "
     "hull dimensions or extra columns; distinct by data hash."
@@ -33,6 +34,7 @@ ASSUMPTIONS = [
     "general position: samples whose LP margin is within 1e-7 of zero make the selection comparison skip (not judged)",
     "HiGHS (scipy linprog) is trusted; tolerance 1e-7 x max(1, |y|)",
     "queries are strictly inside the footprint (convex combinations with all weights > 0)",
+    "float32 features: the residuals of score_feature_matrix are single-precision quantities (tolerance 100 eps_32); distances stay double because the target is",
 ]
 
 
@@ -52,9 +54,25 @@ def gen(rng, tier, index):
     X[:, low] = P
     hi_cols = [c for c in range(d + h) if c not in low]
     X[:, hi_cols] = H
+    tolerance, yunit = 1e-12, 1.0
+    if rng.random() < 0.3:  # non-default tolerance, targets in large units (energies ~1e3 over descriptors ~1)
+        tolerance = float(gens.pick(rng, (1e-9, 1e-6, 1e-3)))
+        yunit = float(2.0 ** int(rng.integers(0, 15)))
+    elif rng.random() < 0.3:
+        yunit = float(2.0 ** int(rng.integers(-10, 15)))
+    y = y * yunit
+    xdtype = gens.pick(rng, ("float64", "float64", "float64", "int64", "float32"))
+    if xdtype == "int64":  # whole-number features (compositions, counts)
+        X = np.round(X * 64).astype("int64")
+    elif xdtype == "float32":
+        X = X.astype("float32")
     return {
         "X": X,
         "y": y,
+        "tolerance": tolerance,
+        "yunit": yunit,
+        "xdtype": xdtype,
+        "past": bool(rng.random() < 0.4),
         "low": low,
         "kind": kind,
         "a": float(rng.uniform(0.1, 5.0)),
@@ -85,13 +103,37 @@ def _is_vertex(P, y, i):
 def run(case, j):
     from skmatter.sample_selection import DirectionalConvexHull as DCH
 
-    X, y, low = case["X"], case["y"], case["low"]
+    Xin, y, low = case["X"], case["y"], case["low"]
+    X = np.asarray(Xin, dtype=float)  # the oracle works with the values the caller passed, in double precision
     n = len(y)
     d, h = len(low), X.shape[1] - len(low)
     P = X[:, low]
-    j.tag(f"hull_dim:{d}", f"extra_cols:{h}", f"target:{case['kind']}")
-    m = DCH(low_dim_idx=list(low))
-    j.lib("fit", m.fit, X, y)
+    T = case.get("tolerance", 1e-12)
+    xdt = case.get("xdtype", "float64")
+    j.tag(f"hull_dim:{d}", f"extra_cols:{h}", f"target:{case['kind']}", f"X:{xdt}", "tolerance:default" if T == 1e-12 else "tolerance:other")
+    if xdt != "float64":
+        j.note("non_float64_features")
+    if T != 1e-12:
+        j.note("non_default_tolerance")
+    prng = np.random.default_rng(case["aseed"] + 1)
+
+    def hull(label=""):
+        """A fresh hull object, or one with a past: fitted to other data (same columns), asked for distances and
+        residuals, then fitted to the data of the case."""
+        mm = DCH(low_dim_idx=list(low), tolerance=T)
+        if case.get("past"):
+            n0 = int(prng.integers(d + 3, 30))
+            X0 = prng.normal(size=(n0, X.shape[1])) * 2 + 1
+            y0 = prng.normal(size=n0) * 3 * case.get("yunit", 1.0)
+            j.lib("fit:decoy" + label, mm.fit, X0, y0)
+            j.lib("score_samples:decoy" + label, mm.score_samples, X0, y0)
+            if h:
+                j.lib("score_feature_matrix:decoy" + label, mm.score_feature_matrix, X0)
+            j.note("estimators_with_a_past")
+        return mm
+
+    m = hull()
+    j.lib("fit", m.fit, Xin, y)
     sel = set(int(v) for v in m.selected_idx_)
     ys = max(1.0, float(np.abs(y).max()))
     tol = 1e-7 * ys
@@ -111,7 +153,7 @@ def run(case, j):
     else:
         j.skip("not-in-general-position")
     # ---- distances on the training set
-    ds = np.asarray(j.lib("score_samples", m.score_samples, X, y))
+    ds = np.asarray(j.lib("score_samples", m.score_samples, Xin, y))
     j.ok("one distance per sample", ds.shape == (n,), ds.shape)
     j.ok("no training sample lies below the hull", float(ds.min()) >= -tol, float(ds.min()))
     j.ok("selected samples have zero distance", float(np.abs(ds[sorted(sel)]).max()) <= tol, float(np.abs(ds[sorted(sel)]).max()))
@@ -128,9 +170,9 @@ def run(case, j):
         if not j.close("distance == vertical offset from the hull", ds[i], y[i] - hh, tol, {"sample": i}):
             break
     if h > 0:
-        r = np.asarray(j.lib("score_feature_matrix", m.score_feature_matrix, X))
+        r = np.asarray(j.lib("score_feature_matrix", m.score_feature_matrix, Xin))
         j.ok("residual matrix has one column per extra feature", r.shape == (n, h), r.shape)
-        j.ok("selected samples have zero high-dimensional residual", float(np.nanmax(np.abs(r[sorted(sel)]))) <= 1e-9 * max(1.0, float(np.abs(X).max())), float(np.nanmax(np.abs(r[sorted(sel)]))))
+        j.ok("selected samples have zero high-dimensional residual", float(np.nanmax(np.abs(r[sorted(sel)]))) <= (1e-9 if xdt != "float32" else 100 * float(np.finfo(np.float32).eps)) * max(1.0, float(np.abs(X).max())), float(np.nanmax(np.abs(r[sorted(sel)]))))
     # ---- queries inside the footprint
     for lam in case["lam"]:
         q = lam @ P
@@ -140,7 +182,7 @@ def run(case, j):
             continue
         Xq = np.zeros((1, X.shape[1]))
         Xq[0, low] = q
-        for off in (0.7, 0.0, -0.7):
+        for off in (0.7 * ys, 0.0, -0.7 * ys):
             v = float(np.asarray(m.score_samples(np.vstack([Xq, Xq]), np.array([hh + off, hh + off])))[0])
             if off > 0:
                 j.close("query above the surface: distance == vertical offset", v, off, tol)
@@ -151,21 +193,22 @@ def run(case, j):
             j.note("queries_judged")
     # ---- relations
     a, b = case["a"], case["b"]
-    m2 = DCH(low_dim_idx=list(low)).fit(X, a * y + b)
+    b = b * ys
+    m2 = hull("2").fit(Xin, a * y + b)
     sel2 = set(int(v) for v in m2.selected_idx_)
     if general:
         j.ok("selection unchanged by a positive affine change of the target", sel2 == sel, sorted(sel ^ sel2))
     if sel2 == sel:
-        j.close("distances scale with the affine map", m2.score_samples(X, a * y + b), a * ds, 1e-7 * a * ys + 1e-9 * abs(b))
+        j.close("distances scale with the affine map", m2.score_samples(Xin, a * y + b), a * ds, 1e-7 * a * ys + 1e-9 * abs(b))
     rng = np.random.default_rng(case["aseed"])
     lam = rng.dirichlet(np.ones(n), size=case["n_above"])
     Pa = lam @ P
-    ya = np.array([_height(P, y, q) for q in Pa], dtype=float) + rng.uniform(0.2, 2.0, size=len(Pa))
+    ya = np.array([_height(P, y, q) for q in Pa], dtype=float) + rng.uniform(0.2, 2.0, size=len(Pa)) * ys
     Xa = np.zeros((len(Pa), X.shape[1]))
     Xa[:, low] = Pa
     if h:
         Xa[:, [c for c in range(X.shape[1]) if c not in low]] = rng.normal(size=(len(Pa), h))
-    m3 = DCH(low_dim_idx=list(low)).fit(np.vstack([X, Xa]), np.concatenate([y, ya]))
+    m3 = hull("3").fit(np.vstack([X, Xa]), np.concatenate([y, ya]))
     sel3 = set(int(v) for v in m3.selected_idx_)
     if general:
         j.ok("selection unchanged by adding samples strictly above the hull", sel3 == sel, {"added_selected": sorted(v for v in sel3 if v >= n), "diff": sorted(sel ^ sel3)})
